@@ -171,6 +171,11 @@ RegistryT<ArgsT<TG_, TSL_, TRL_, NCC_, 0, 0, TRO_ HFSM2_IF_SERIALIZATION(, NSB_)
 		{
 			HFSM2_ASSERT(parent.forkId > 0);
 			compoRemains.set(parent.forkId - 1);
+
+			Prong& requested = compoRequested[parent.forkId - 1];
+
+			if (requested != parent.prong && requested != INVALID_PRONG)
+				requested  = INVALID_PRONG;
 		}
 	}
 }
